@@ -169,7 +169,7 @@ func vc02Finalize(maxSpecies int) {
 // K5: the whole NextEpoch. Fitness values, ages and option values are concrete representatives here (their
 // symbolic treatment is kernels C09 a-e); symbolic: the quotas (who reproduces how often), all distances
 // (how the offspring speciate), the novel flags and every random draw.
-func vc02Epoch(shape int, fitnessPattern int) {
+func vc02Epoch(shape int, fitnessPattern int, parallel bool) {
 	sizes := speciesShapes(shape)
 	pop := newPopulation()
 	id := 0
@@ -203,8 +203,17 @@ func vc02Epoch(shape int, fitnessPattern int) {
 	c02Quota.calls, c02Quota.species, c02Quota.popSize, c02Quota.sum = 0, len(sizes), n, 0
 	c08Log = nil
 	before := shoot(pop)
-	ex := &SequentialPopulationEpochExecutor{}
-	err := ex.NextEpoch(&hCtx{opts: opts}, 1, pop)
+	var err error
+	if parallel {
+		// the parallel executor: same phases, reproduction fanned out over one goroutine per species; the babies travel
+		// through the wire format (engine: pass-through stubs, natively the real encoder)
+		c16Streams, c16Progeny = nil, nil
+		vParallelSection(true)
+		err = (&ParallelPopulationEpochExecutor{}).NextEpoch(&hCtx{opts: opts}, 1, pop)
+		vParallelSection(false)
+	} else {
+		err = (&SequentialPopulationEpochExecutor{}).NextEpoch(&hCtx{opts: opts}, 1, pop)
+	}
 	vAssert(err == nil, "C02: turning over an epoch succeeds without error")
 	if err == nil {
 		postEpoch(pop, before, n, "C02 epoch")
@@ -246,5 +255,8 @@ func vc02Redistribute(maxSpecies, popSizeBase int) {
 func VC02_Redistribute_Quick() { vc02Redistribute(3, 11) }
 func VC02_Finalize_Quick()     { vc02Finalize(2) }
 func VC02_Finalize_Thorough()  { vc02Finalize(3) }
-func VC02_Epoch_Quick()        { vc02Epoch(vChoice("shape", 2), vChoice("fitness pattern", 3)) }
-func VC02_Epoch_Thorough()     { vc02Epoch(2+vChoice("shape", 2), vChoice("fitness pattern", 3)) }
+func VC02_Epoch_Quick()        { vc02Epoch(vChoice("shape", 2), vChoice("fitness pattern", 3), false) }
+func VC02_Epoch_Thorough()     { vc02Epoch(2+vChoice("shape", 2), vChoice("fitness pattern", 3), false) }
+
+// the same kernel under the parallel executor
+func VC02_EpochParallel_Quick() { vc02Epoch(vChoice("shape", 2), vChoice("fitness pattern", 3), true) }
